@@ -24,6 +24,11 @@ CFG = ('CONSTANT Programs <- MCPrograms\nSPECIFICATION Spec\nINVARIANT Emit\n' +
 SHARD = 48
 
 
+def shard_size(n):
+  """at most SHARD programs per TLC run, but at least ~24 shards when possible"""
+  return max(1, min(SHARD, (n + 23) // 24))
+
+
 # ----------------------------------------------------------------------
 # families
 
@@ -157,6 +162,11 @@ def fam_ladder(tier):
                           phase('p2', beh('C'))], sof=sof, unset=unset, fexc=fexc))
       out.append(program([subtest('s1', [phase('p1', beh('C'), o=o), phase('p2', beh('CX'))]),
                           phase('p3', beh('C'))], sof=sof, unset=unset, fexc=fexc))
+    # retries: superseded invocations (see known finding C01/superseded-error)
+    out.append(program([phase('p1', beh('CE'), o=opts(force=True, limit=2)), phase('p2', beh('C'))],
+                       sof=sof, unset=unset, fexc=fexc))
+    out.append(program([phase('p1', beh('CF', ('p', 'f')), o=opts(romf=True, limit=2), mk='scalar'),
+                        phase('p2', beh('C'))], sof=sof, unset=unset, fexc=fexc))
     # test diagnosers and test_start
     out.append(program([phase('p1', beh('CFE'))], tdiag=[('0', 'a', 'B', '!'), ('0', 'D', '!')],
                        sof=sof, unset=unset, fexc=fexc))
@@ -213,11 +223,12 @@ def _emit_shard(args):
 def emit(chk, name, programs, pool, replay_fn, extra=None):
   """Runs TLC on shards of `programs`; every emitted scenario is replayed by
   replay_fn (in pool workers).  Returns the list of per-scenario results."""
-  shards = [programs[i:i + SHARD] for i in range(0, len(programs), SHARD)]
+  size = shard_size(len(programs))
+  shards = [programs[i:i + size] for i in range(0, len(programs), size)]
   t0 = time.time()
   results = []
   nsc = 0
-  with cf.ThreadPoolExecutor(8) as ex:
+  with cf.ThreadPoolExecutor(10) as ex:
     futs = [ex.submit(_emit_shard, (name, i, sh)) for i, sh in enumerate(shards)]
     pending = []
     agg = dict(distinct=0, generated=0)
@@ -228,7 +239,7 @@ def emit(chk, name, programs, pool, replay_fn, extra=None):
       chk.transitions += res.generated
       agg['distinct'] += res.distinct
       agg['generated'] += res.generated
-      chunks = tlaval.split_prints(res.out, 'HIST', 4)
+      chunks = tlaval.split_prints(res.out, 'HIST', 6)
       for c in chunks:
         pending.append(pool.apply_async(replay_fn, ((name, idx, shards[idx], c, extra),)))
     for p in pending:
@@ -292,7 +303,79 @@ def compare(o, g, prog):
     if o[key] != g[key]:
       bad.append((cat, '%s records %s, model says %s' % (cat, g[key], o[key])))
   bad += plug_rules(o, g, prog)
+  bad += false_pass_rules(g, prog)
+  bad += teardown_rules(o, g, prog)
   return bad
+
+
+def teardown_rules(o, g, prog):
+  """C03 evaluated on the real call log: which groups were entered is taken
+  from the model (it is determined by the setup results, which the script
+  fixes); the teardown bodies are counted in the real log."""
+  bad = []
+  groups = {n['name']: n for n in progs.all_nodes(prog['root']) if n['k'] == 'group'}
+  count = {}
+  for c in g.get('calls', []):
+    if c['att'] == 1:
+      count[c['n']] = count.get(c['n'], 0) + 1
+  for gname in o.get('entered', []):
+    for p in groups[gname]['tdn']:
+      if p['k'] == 'phase' and p['opts']['runif'] not in ('false', 'raise'):
+        n = count.get(p['name'], 0)
+        if n != 1:
+          bad.append(('teardown', 'teardown phase of an entered group ran %d times' % n))
+  for gname in o.get('notent', []):
+    for part in ('main', 'tdn'):
+      for p in groups[gname][part]:
+        if p['k'] == 'phase' and count.get(p['name'], 0):
+          bad.append(('teardown', '%s phase of a group whose setup did not complete ran'
+                      % ('main' if part == 'main' else 'teardown')))
+  return bad
+
+
+def false_pass_rules(g, prog):
+  """The statement of C01 evaluated directly on the real observation."""
+  bad = []
+  if g.get('oc') != 'PASS' and not g.get('ret'):
+    return bad
+  recs = g.get('recs', [])
+  for i, r in enumerate(recs):
+    if r['oc'] in ('FAIL', 'ERROR'):
+      sup = i + 1 < len(recs) and recs[i + 1]['name'] == r['name']
+      if sup and r['oc'] == 'ERROR':
+        bad.append(('false_pass', 'PASS although an invocation superseded by a retry is recorded ERROR'))
+      else:
+        bad.append(('false_pass', 'PASS with a %s phase record' % r['oc']))
+  if recs and all(r['oc'] == 'SKIP' for r in recs):
+    bad.append(('false_pass', 'PASS although every phase record is SKIP'))
+  if any(d['fail'] for d in g.get('diags', [])):
+    bad.append(('false_pass', 'PASS with a failure diagnosis'))
+  if any(s['oc'] == 'FAIL' for s in g.get('subs', [])):
+    bad.append(('false_pass', 'PASS with a failed subtest'))
+  if g.get('crashed'):
+    bad.append(('false_pass', 'PASS although the executor failed'))
+  # every declared phase ran or was skipped by a documented rule: a phase that
+  # neither ran nor has a SKIP record must be excluded by run_if or sit in a branch
+  ran = {c['n'] for c in g.get('calls', [])} | {r['name'] for r in recs}
+  for p in progs.all_phases(prog['root']):
+    if p['name'] in ran or p['opts']['runif'] in ('false',):
+      continue
+    if _inside_branch(prog['root'], p['name']):
+      continue
+    bad.append(('false_pass', 'PASS although declared phase never ran and was not skipped by a documented rule'))
+    break
+  return bad
+
+
+def _inside_branch(node, name, inb=False):
+  k = node['k']
+  if k == 'phase':
+    return inb and node['name'] == name
+  if k in ('seq', 'subtest', 'branch'):
+    return any(_inside_branch(c, name, inb or k == 'branch') for c in node['ch'])
+  if k == 'group':
+    return any(_inside_branch(c, name, inb) for part in ('setup', 'main', 'tdn') for c in node[part])
+  return False
 
 
 def _short(x):
@@ -364,7 +447,8 @@ def replay_chunk(args):
   out = dict(n=0, bad=[], nontrivial=0, sample=None, cats={})
   for (o,) in hists:
     prog = plist[o['p'] - 1]
-    use_sched = needs_sched(o['calls']) or bool((extra or {}).get('force_sched'))
+    use_sched = (needs_sched(o['calls']) or bool((extra or {}).get('force_sched')) or
+                 any(v == 'hang' for v in prog['plugspec']['tdmode'].values()))
     g = build.run_program(prog, o['calls'], use_sched=use_sched, timeout_s=5 if use_sched else None)
     bad = compare(o, g, prog)
     out['n'] += 1
@@ -421,8 +505,8 @@ def replay_file(path, owned, pid, families_fn):
   with open(path) as fh:
     sc = json.load(fh)['scenario']
   fams = dict(families_fn(sc.get('tier', 'quick')))
-  prog = fams[sc['family']][sc['shard'] * SHARD + sc['prog_index']]
-  use_sched = needs_sched(sc['calls'])
+  prog = fams[sc['family']][sc['shard'] * shard_size(len(fams[sc['family']])) + sc['prog_index']]
+  use_sched = needs_sched(sc['calls']) or any(v == 'hang' for v in prog['plugspec']['tdmode'].values())
   g = build.run_program(prog, sc['calls'], use_sched=use_sched, timeout_s=5 if use_sched else None)
   print('real observation: outcome=%s ret=%s crashed=%s' % (g.get('oc'), g.get('ret'), g.get('crashed')))
   print('calls:', [(c['n'], c['att'], c['b']) for c in g.get('calls', [])])
